@@ -292,11 +292,20 @@ def c02(ctx, case, io):
     claimed = {}           # (repo, digest) -> media types under which acknowledged index pushes list it
     restarted = False
     limit = case["conf"]["mlimit"]
+    stored_at, aged_at, prev_keys = {}, {}, set()      # when content became present / when a repository's content was last made old
     for k, (st, res) in enumerate(zip(case["steps"], io["steps"])):
+        cur_keys = set(blobs) | set(mans)
+        for key_ in cur_keys - prev_keys:
+            stored_at[key_] = k - 1
+        for key_ in prev_keys - cur_keys:
+            stored_at.pop(key_, None)
+        prev_keys = cur_keys
         if res.get("panic"):
             continue
         kind, status = st["kind"], res.get("status")
         repo = st.get("repo")
+        if kind == "age" and not st["impl"].get("digest"):
+            aged_at[repo] = k
         if kind == "upost":
             if status == 202:
                 sess[k] = dict(repo=repo, data=b"")
@@ -387,6 +396,9 @@ def c02(ctx, case, io):
                                     work.append(x_["dig"])
                                 else:
                                     keep.add((r0, x_["dig"]))
+                    if dflt(pol.get("grace_ms"), 3600000) > 0:
+                        # ... and what became present after the repository's content was last made old: uploaded within the grace period
+                        keep |= {key_ for key_ in cur_keys if key_[0] == r0 and stored_at.get(key_, -1) > aged_at.get(r0, -1)}
                     for key_ in [key_ for key_ in blobs if key_[0] == r0 and key_ not in keep]:
                         del blobs[key_]
                     for key_ in [key_ for key_ in mans if key_[0] == r0 and key_ not in keep]:
